@@ -3,6 +3,7 @@
 from __future__ import annotations
 
 from asyncio import (
+    CancelledError,
     Event,
     Future,
     Queue,
@@ -11,6 +12,7 @@ from asyncio import (
     gather,
     get_running_loop,
     isfuture,
+    wait,
 )
 from typing import TYPE_CHECKING, Any, NamedTuple, cast
 
@@ -141,11 +143,19 @@ class StreamItemQueue:
             entry = await entries.get() if held is None else held
             held = None
             if isfuture(entry):
-                try:
-                    entry = await entry
-                except Exception:
-                    await self._cleanup()
-                    raise
+                if not entry.done():
+                    await wait((entry,))
+                if entry.cancelled():
+                    # An early executed item was cancelled because the stream
+                    # failed: drop the results from here on, deliver the failure.
+                    while not (entry is _END or isinstance(entry, _ErrorEntry)):
+                        entry = await entries.get()
+                else:
+                    try:
+                        entry = entry.result()
+                    except Exception:
+                        await self._cleanup()
+                        raise
             if entry is _END:
                 self._stopped = True
                 return
@@ -170,7 +180,7 @@ class StreamItemQueue:
                 if isfuture(next_entry):
                     try:
                         next_entry = next_entry.result()
-                    except Exception:
+                    except (Exception, CancelledError):
                         held = next_entry  # re-raise when delivered as head
                         break
                 batch.append(next_entry)
